@@ -319,6 +319,7 @@ type wattr struct {
 type wire struct {
 	Kind  string  `json:"kind"` // "wire"
 	Raw   bool    `json:"raw"`  // PutClassAdRaw with Pad-ded texts instead of PutClassAd
+	BadT  bool    `json:"bad_type_name"` // a type slot holds something that is not a type name: the raw-text receiver must refuse it
 	Man   bool    `json:"manual"` // count, strings, marker + secret as two plain strings (what a C++ peer sends when it need not toggle crypto)
 	Opts  int     `json:"opts"`
 	Attrs []wattr `json:"attrs"`
@@ -517,6 +518,37 @@ func runWire(w wire) (*wireResult, error) {
 }
 
 func wireOracle(w wire, res *wireResult) (key, msg string) {
+	if w.BadT {
+		// isTypeName is ENFORCED by the raw-text receivers; the parsing and skipping ones take the string as it is
+		if res.RawOK || res.BodyOK {
+			return "typename-not-enforced", fmt.Sprintf("GetClassAdRaw accepted the type names %q / %q", trunc(w.My), trunc(w.Tg))
+		}
+		if !res.GetOK || !res.SkipOK || !res.MaxOK {
+			return "typename-receivers", fmt.Sprintf("with type names %q / %q: GetClassAd %v, SkipClassAdRaw %v, GetClassAdWithMaxSize %v", trunc(w.My), trunc(w.Tg), res.GetErr, res.SkErr, res.MaxErr)
+		}
+		if s, _ := res.Got.EvaluateAttrString("MyType"); s != w.My {
+			return "mytype-differs", fmt.Sprintf("MyType received %q, sent %q", s, w.My)
+		}
+		return "", ""
+	}
+	hasEq, binNull := false, false
+	for _, n := range res.Names {
+		hasEq = hasEq || strings.Contains(n, "=")
+	}
+	if !res.GetOK && hasEq && res.RawOK && res.SkipOK {
+		return "attr-name-with-equals", fmt.Sprintf("an attribute whose (quoted) name contains '=' is rendered unquoted; the parsing receiver splits inside the name: %v", res.GetErr)
+	}
+	if w.Enc && (strings.HasPrefix(res.MyType, "\xad") || strings.HasPrefix(res.TargetType, "\xad")) {
+		binNull = true
+	}
+	if binNull && res.GetOK && res.RawOK && res.SkipOK {
+		if s, _ := res.Got.EvaluateAttrString("MyType"); strings.HasPrefix(res.MyType, "\xad") && s != res.MyType {
+			return "binnull-string", fmt.Sprintf("length-prefixed string mode: a string starting with byte 0xAD (HTCondor's NULL-string marker) is received as the empty string: MyType %q arrives as %q", res.MyType, s)
+		}
+		if s, _ := res.Got.EvaluateAttrString("TargetType"); strings.HasPrefix(res.TargetType, "\xad") && s != res.TargetType {
+			return "binnull-string", fmt.Sprintf("length-prefixed string mode: TargetType %q arrives as %q", res.TargetType, s)
+		}
+	}
 	if !res.GetOK {
 		return "getclassad-fails", fmt.Sprintf("GetClassAd: %v", res.GetErr)
 	}
@@ -1031,6 +1063,11 @@ func wireCase(c *core.Ctx, w wire) error {
 		}
 	}
 	c.Evaluated(len(states) - 1)
+	for _, n := range first.Names {
+		if strings.Contains(n, "=") {
+			return nil // known finding attr-name-with-equals: the model's GetClassAd takes every string as parseable; oracle only
+		}
+	}
 	weight := 2
 	for _, t := range first.Texts {
 		weight += len(t) / 1500
@@ -1228,6 +1265,29 @@ func gen(c *core.Ctx) error {
 		{Kind: "wire", Man: true, Attrs: []wattr{{"TargetTypeHint", "1"}, {"ClaimId", `"s3cr3t-mytype"`}, {"MyTypeVersion", "2"}}, My: "Machine", Tg: "Job"},
 	} {
 		if err := wireCase(c, w); err != nil {
+			return err
+		}
+	}
+	// type slots that do not hold a type name ('=', quote, backslash, newline, 129 bytes): refused by the
+	// raw-text receivers (isTypeName), taken as they are by the others
+	for i, bad := range []string{"a=b", `q"x`, `back\\slash`, "two\nlines", "cr\rx", strings.Repeat("T", 129), `Name = "x"`} {
+		w := wire{Kind: "wire", Raw: true, BadT: true, Pad: i, Attrs: []wattr{{"Name", `"x"`}, {"Cpus", "4"}}, My: bad, Tg: "Job"}
+		if i%2 == 1 {
+			w.My, w.Tg = "Machine", bad
+			w.BadT = true
+		}
+		if err := wireCase(c, w); err != nil {
+			return err
+		}
+		c.Count("wire-bad-type-name")
+	}
+	// outside the hypotheses of the round-trip theorems (known findings): an attribute name that needs
+	// quoting because it contains '=', and a string starting with the NULL-string marker byte
+	{
+		if err := wireCase(c, wire{Kind: "wire", Man: true, Attrs: []wattr{{"a=b", "5"}, {"Z", "1"}}, My: "Job"}); err != nil {
+			return err
+		}
+		if err := wireCase(c, wire{Kind: "wire", Raw: true, Pad: 3, Attrs: []wattr{{"Name", `"x"`}}, My: "\xadfoo", Tg: "Job"}); err != nil {
 			return err
 		}
 	}
